@@ -13,7 +13,7 @@ import (
 )
 
 func init() {
-	register(&Check{ID: "C16", Level: "model_checking", Run: runC16, QuickBudget: 150 * time.Second, ThoroughBudget: 30 * time.Minute})
+	register(&Check{ID: "C16", Level: "model_checking", Run: runC16, QuickBudget: 400 * time.Second, ThoroughBudget: 30 * time.Minute})
 	Replayers["c16"] = replayC16
 }
 
@@ -664,6 +664,7 @@ func runC16(r *h.Run) {
 					vals[i] = c16Value(ix, pat, k.width)
 				}
 				w.Evals++
+				w.Tick()
 				w.StatesN++
 				if len(idx) >= 2 {
 					w.NontrivN++
@@ -698,6 +699,7 @@ func runC16(r *h.Run) {
 					continue
 				}
 				w.Evals++
+				w.Tick()
 				w.StatesN++
 				if msg := evalC16(w, k, []int32{ix}, []uint64{uint64(v)}, nil); msg != "" {
 					w.Report(h.Viol{Sig: "array-" + u.kind, Msg: fmt.Sprintf("array kind %s one element %#x at %d: %s", u.kind, v, ix, msg), Kind: "c16", Case: c16Case{Kind: u.kind, Indexes: []int32{ix}, Values: []uint64{uint64(v)}}, Unit: w.Unit()})
@@ -730,6 +732,7 @@ func runC16(r *h.Run) {
 					continue
 				}
 				w.Evals++
+				w.Tick()
 				w.StatesN++
 				if len(cur) >= 2 {
 					w.NontrivN++
